@@ -77,6 +77,22 @@ CLAIMED["C16"] = dict(
               "extracted-model/implementation correspondence",
 )
 
+CLAIMED["C02"] = dict(
+    text="Coq theorems over Model/SctpTx.v for ALL input histories (messages, arbitrary SACKs incl. stale / "
+         "duplicated / nonsensical ones, T3 expiries, deferred transmit tasks): cwnd >= 1 MTU; 0 <= flight size <= "
+         "bytes really in flight (hence 0 when nothing is outstanding); whenever anything is outstanding or queued "
+         "the T3 timer is armed or a transmit task is scheduled, and queued data never waits behind an empty sent "
+         "queue; the invariant is inductive from any state. PARTIAL: termination of the healing rounds (quiescence "
+         "within bounded time after the network heals) is observed on the two-endpoint simulator (fault prefix + "
+         "fault-free suffix) but not proved; real time (RTO) is outside every theorem.",
+    design_ref="5 / C02",
+    note="Sender model tied to a real RTCSctpTransport (ESTABLISHED; _send_chunk, timers, ensure_future recorded) by "
+         "differential runs comparing outputs and the full sender state after every input; lost DATA needs no input "
+         "(the chunk stays outstanding), loss/dup/reorder of SACKs = arbitrary SACK inputs. RTO floats not modelled.",
+    technique="Coq proof (inductive invariant over all input histories, zipper model of in-place queue mutation) + "
+              "model/implementation correspondence",
+)
+
 NOT_YET = "check not built yet in this development snapshot (planned, see DESIGN.md section 10)"
 
 
